@@ -146,6 +146,7 @@ def strategy(tier):
         "kind": st.just("query"),
         "segments": st.lists(c05.docs_s(), min_size=1, max_size=3),
         "blocklimit": st.sampled_from([1, 2, 4, 8]),
+        "inlinelimit": st.sampled_from([1, 1, 3, 6]),
         "delete": st.lists(st.integers(0, 200), max_size=6),
         "optimize": st.just(False),
         # (1.1 and 0.3 are not 32-bit floats: the stored weights are rounded, the bounds must follow)
